@@ -6,6 +6,54 @@ pub struct ExWaker(std::task::Waker);
 pub uninterp spec fn w_woken(w: Waker) -> bool;
 pub assume_specification [Waker::wake] (w: Waker)
     ensures w_woken(w);
+/// std::task::Context: opaque; ASSUMED: `waker()` returns the one waker of the context, a clone of a waker wakes the same
+/// task (it IS the same waker for every contract here).
+#[verifier::external_type_specification] #[verifier::external_body]
+pub struct ExContext<'a>(std::task::Context<'a>);
+pub uninterp spec fn cx_waker(cx: &Context<'_>) -> Waker;
+pub assume_specification<'a, 'b> [Context::<'a>::waker] (cx: &'b Context<'a>) -> (r: &'a Waker)
+    ensures *r == cx_waker(cx);
+pub assume_specification [<Waker as Clone>::clone] (w: &Waker) -> (r: Waker)
+    ensures r == *w;
+#[verifier::external_type_specification] #[verifier::accept_recursive_types(T)]
+pub struct ExTaskPoll<T>(std::task::Poll<T>);
+/// std::io::{Read, Write} of the wrapped object: ASSUMED nothing but the monotone witness "this operation returned this
+/// result" (so that a contract can say WHICH result a poll hands on).
+pub uninterp spec fn w_io_returned(res: std::io::Result<usize>) -> bool;
+pub uninterp spec fn w_flush_returned(res: std::io::Result<()>) -> bool;
+#[verifier::external_trait_specification]
+pub trait ExRead {
+    type ExternalTraitSpecificationFor: std::io::Read;
+    fn read(&mut self, buf: &mut [u8]) -> (r: std::io::Result<usize>)
+        ensures w_io_returned(r);
+    fn read_vectored(&mut self, bufs: &mut [std::io::IoSliceMut<'_>]) -> (r: std::io::Result<usize>)
+        ensures w_io_returned(r);
+}
+#[verifier::external_trait_specification]
+pub trait ExWrite {
+    type ExternalTraitSpecificationFor: std::io::Write;
+    fn write(&mut self, buf: &[u8]) -> (r: std::io::Result<usize>)
+        ensures w_io_returned(r);
+    fn write_vectored(&mut self, bufs: &[std::io::IoSlice<'_>]) -> (r: std::io::Result<usize>)
+        ensures w_io_returned(r);
+    fn flush(&mut self) -> (r: std::io::Result<()>)
+        ensures w_flush_returned(r);
+}
+#[verifier::external_type_specification] #[verifier::external_body]
+pub struct ExIoSliceMut<'a>(std::io::IoSliceMut<'a>);
+#[verifier::external_type_specification] #[verifier::external_body]
+pub struct ExIoSlice<'a>(std::io::IoSlice<'a>);
+pub open spec fn would_block<T>(res: std::io::Result<T>) -> bool {
+    res matches Err(e) && crate::ext::io_kind(e) == std::io::ErrorKind::WouldBlock
+}
+/// identity stand-in for the unsizing coercion Rc<RefCell<IoDispatcher>> -> Rc<dyn EventDispatcher<Data>> (rule R15)
+pub uninterp spec fn unsize_io_dispatcher_spec<'l, Data>(d: Rc<RefCell<IoDispatcher>>) -> Rc<dyn EventDispatcher<Data> + 'l>;
+#[verifier::external_body]
+pub fn unsize_io_dispatcher<'l, Data>(d: Rc<RefCell<IoDispatcher>>) -> (r: Rc<dyn EventDispatcher<Data> + 'l>)
+    ensures r == unsize_io_dispatcher_spec::<Data>(d),
+{ unimplemented!() }
+pub assume_specification<T> [std::mem::replace::<T>] (dest: &mut T, src: T) -> (r: T)
+    ensures r == *old(dest), *final(dest) == src;
 //@ endregion
 
 //@ item src/io.rs / struct IoDispatcher props=C16,C17
@@ -123,6 +171,25 @@ impl IoDispatcher {
 //@ endslice
 }
 
+impl IoDispatcher {
+//@ slice src/io.rs / impl EventDispatcher<Data> for RefCell<IoDispatcher> / fn unregister :: body props=C16,C06,C15 name=IoDispatcher::unregister
+//@ rw R10 * <<self.borrow()>> => <<disp_cell>>
+//@ sig
+    /// S1 slice: whole body of `impl EventDispatcher for RefCell<IoDispatcher>::unregister` (what LoopHandle::remove / the
+    /// per-event body of dispatch_events do to an adapter's dispatcher); R10: `self.borrow()` becomes `disp_cell`. The two
+    /// unused parameters (`_`) get names.
+    fn io_unregister_body(disp_cell: &IoDispatcher, poll: &mut Poll, _extra: &mut AdditionalLifecycleEventsSet, _token: RegistrationToken) -> (r: crate::Result<bool>)
+//@ spec
+        requires
+            // C15 (may-call side): only the adapter's own fd may be deleted, and only if the adapter registered it
+            forall|d: int| #[trigger] old(poll).pl().may_delete(d) <==> (d == disp_cell.fd as int && disp_cell.is_registered),
+        ensures
+            // C16/C06: Ok means: if the adapter had its fd in the OS poller, it has been deleted from it
+            r is Ok ==> r == Ok::<bool, crate::Error>(true) && (disp_cell.is_registered ==> old(poll).pl().w_deleted(disp_cell.fd as int)),
+            final(_extra)@ == old(_extra)@,
+//@ endslice
+}
+
 //@ region nonblocking_specs props=C17
 /// the flag word set_nonblocking must install: the current one with O_NONBLOCK forced to `on`, everything else kept
 pub open spec fn with_nonblock(f: crate::rustix::fs::OFlags, on: bool) -> crate::rustix::fs::OFlags {
@@ -150,7 +217,219 @@ pub open spec fn is_nonblock(f: crate::rustix::fs::OFlags) -> bool { (f.bits & 0
     }
 //@ enditem
 
+//@ open src/io.rs / impl IoDispatcher
+//@ item src/io.rs / impl IoDispatcher / fn readiness props=C17 ret=r
+//@ spec
+        ensures
+            // C17: the recorded readiness is handed out ONCE: taking it clears it (a later poll waits for a new event)
+            r == old(self).last_readiness, final(self).last_readiness == Readiness::EMPTY,
+            final(self).fd == old(self).fd, final(self).token == old(self).token, final(self).waker == old(self).waker,
+            final(self).interest == old(self).interest, final(self).is_registered == old(self).is_registered,
+//@ enditem
+//@ close
+
+//@ region async_witnesses props=C17
+// monotone history witnesses for the two private methods of Async the futures go through (DESIGN 2.12): produced only by
+// the postconditions of the signature-only items below; the bodies of these two methods are proved as slices (R10) with the
+// concrete meaning: readiness() hands out and clears the dispatcher's recorded readiness; register_waker() stores interest
+// and waker and re-arms the one-shot registration.
+/// `io.readiness()` has been called and returned `r`
+pub uninterp spec fn w_readiness_taken<F: AsFd>(io: &Async<'_, F>, r: Readiness) -> bool;
+/// `io.register_waker(interest, waker)` has been called
+pub uninterp spec fn w_waker_registered<F: AsFd>(io: &Async<'_, F>, interest: Interest, waker: Waker) -> bool;
+//@ endregion
+//@ open src/io.rs / impl Async<'l, F>
+//@ item src/io.rs / impl Async<'l, F> / fn readiness props=C17 sigonly ret=r
+//@ spec
+        ensures w_readiness_taken(self, r),
+//@ enditem
+//@ item src/io.rs / impl Async<'l, F> / fn register_waker props=C17 sigonly ret=r
+//@ spec
+        ensures w_waker_registered(self, interest, waker),
+//@ enditem
+//@ item src/io.rs / impl Async<'l, F> / fn get_mut props=C17 sigonly
+//@ enditem
+//@ close
+
+impl<'l, F: AsFd + std::io::Read> Async<'l, F> {
+//@ slice src/io.rs / impl AsyncRead for Async<'_, F> / fn poll_read :: body props=C17 name=Async::poll_read
+//@ rw R21 * <<(*self).get_mut()>> => <<slf.get_mut()>>
+//@ rw R21 * <<self.register_waker(>> => <<match slf.register_waker(>>
+//@ rw R22 1/1 <<)?;>> => <<) { Ok(v) => v, Err(e) => return TaskPoll::Ready(Err(std::io::Error::from(e))) };>>
+//@ sig
+    /// S1 slice: whole body of `<Async as AsyncRead>::poll_read`. R21: `self: Pin<&mut Self>` of the Unpin type Async is
+    /// the parameter `slf: &mut Async`; R22: `?` in a function returning `Poll<Result<..>>` is written out as std's
+    /// FromResidual impl defines it (`Err(e) => return Poll::Ready(Err(From::from(e)))`).
+    fn poll_read_body(slf: &mut Async<'l, F>, cx: &mut Context<'_>, buf: &mut [u8]) -> (r: TaskPoll<std::io::Result<usize>>)
+//@ spec
+        ensures
+            // C17: Pending only after the operation said WouldBlock AND the task's waker has been stored with READ interest
+            // (register_waker then re-arms the one-shot registration): no path parks the task without arranging its wake-up
+            r is Pending ==> w_waker_registered(&*final(slf), Interest::READ, cx_waker(&*old(cx)))
+                && exists|x: std::io::Result<usize>| #[trigger] w_io_returned(x) && would_block(x),
+            // every other result of the operation (data, EOF, a real error) is handed to the task unchanged; the only other
+            // way to Ready is a failed re-arm, reported as an error
+            r matches TaskPoll::Ready(res) ==> (w_io_returned(res) && !would_block(res))
+                || (res is Err && w_waker_registered(&*final(slf), Interest::READ, cx_waker(&*old(cx)))),
+//@ endslice
+//@ slice src/io.rs / impl AsyncRead for Async<'_, F> / fn poll_read_vectored :: body props=C17 name=Async::poll_read_vectored
+//@ rw R21 * <<(*self).get_mut()>> => <<slf.get_mut()>>
+//@ rw R21 * <<self.register_waker(>> => <<match slf.register_waker(>>
+//@ rw R22 1/1 <<)?;>> => <<) { Ok(v) => v, Err(e) => return TaskPoll::Ready(Err(std::io::Error::from(e))) };>>
+//@ sig
+    /// S1 slice: whole body of `<Async as AsyncRead>::poll_read_vectored`; rules R21, R22 as for poll_read.
+    fn poll_read_vectored_body(slf: &mut Async<'l, F>, cx: &mut Context<'_>, bufs: &mut [IoSliceMut<'_>]) -> (r: TaskPoll<std::io::Result<usize>>)
+//@ spec
+        ensures
+            // C17: Pending only after the operation said WouldBlock AND the task's waker has been stored with READ interest
+            // (register_waker then re-arms the one-shot registration): no path parks the task without arranging its wake-up
+            r is Pending ==> w_waker_registered(&*final(slf), Interest::READ, cx_waker(&*old(cx)))
+                && exists|x: std::io::Result<usize>| #[trigger] w_io_returned(x) && would_block(x),
+            // every other result of the operation (data, EOF, a real error) is handed to the task unchanged; the only other
+            // way to Ready is a failed re-arm, reported as an error
+            r matches TaskPoll::Ready(res) ==> (w_io_returned(res) && !would_block(res))
+                || (res is Err && w_waker_registered(&*final(slf), Interest::READ, cx_waker(&*old(cx)))),
+//@ endslice
+}
+impl<'l, F: AsFd + std::io::Write> Async<'l, F> {
+//@ slice src/io.rs / impl AsyncWrite for Async<'_, F> / fn poll_write :: body props=C17 name=Async::poll_write
+//@ rw R21 * <<(*self).get_mut()>> => <<slf.get_mut()>>
+//@ rw R21 * <<self.register_waker(>> => <<match slf.register_waker(>>
+//@ rw R22 1/1 <<)?;>> => <<) { Ok(v) => v, Err(e) => return TaskPoll::Ready(Err(std::io::Error::from(e))) };>>
+//@ sig
+    /// S1 slice: whole body of `<Async as AsyncWrite>::poll_write`; rules R21, R22 as for poll_read.
+    fn poll_write_body(slf: &mut Async<'l, F>, cx: &mut Context<'_>, buf: &[u8]) -> (r: TaskPoll<std::io::Result<usize>>)
+//@ spec
+        ensures
+            // C17: Pending only after the operation said WouldBlock AND the task's waker has been stored with WRITE interest
+            // (register_waker then re-arms the one-shot registration): no path parks the task without arranging its wake-up
+            r is Pending ==> w_waker_registered(&*final(slf), Interest::WRITE, cx_waker(&*old(cx)))
+                && exists|x: std::io::Result<usize>| #[trigger] w_io_returned(x) && would_block(x),
+            // every other result of the operation (data, EOF, a real error) is handed to the task unchanged; the only other
+            // way to Ready is a failed re-arm, reported as an error
+            r matches TaskPoll::Ready(res) ==> (w_io_returned(res) && !would_block(res))
+                || (res is Err && w_waker_registered(&*final(slf), Interest::WRITE, cx_waker(&*old(cx)))),
+//@ endslice
+//@ slice src/io.rs / impl AsyncWrite for Async<'_, F> / fn poll_write_vectored :: body props=C17 name=Async::poll_write_vectored
+//@ rw R21 * <<(*self).get_mut()>> => <<slf.get_mut()>>
+//@ rw R21 * <<self.register_waker(>> => <<match slf.register_waker(>>
+//@ rw R22 1/1 <<)?;>> => <<) { Ok(v) => v, Err(e) => return TaskPoll::Ready(Err(std::io::Error::from(e))) };>>
+//@ sig
+    /// S1 slice: whole body of `<Async as AsyncWrite>::poll_write_vectored`; rules R21, R22 as for poll_read.
+    fn poll_write_vectored_body(slf: &mut Async<'l, F>, cx: &mut Context<'_>, bufs: &[IoSlice<'_>]) -> (r: TaskPoll<std::io::Result<usize>>)
+//@ spec
+        ensures
+            // C17: Pending only after the operation said WouldBlock AND the task's waker has been stored with WRITE interest
+            // (register_waker then re-arms the one-shot registration): no path parks the task without arranging its wake-up
+            r is Pending ==> w_waker_registered(&*final(slf), Interest::WRITE, cx_waker(&*old(cx)))
+                && exists|x: std::io::Result<usize>| #[trigger] w_io_returned(x) && would_block(x),
+            // every other result of the operation (data, EOF, a real error) is handed to the task unchanged; the only other
+            // way to Ready is a failed re-arm, reported as an error
+            r matches TaskPoll::Ready(res) ==> (w_io_returned(res) && !would_block(res))
+                || (res is Err && w_waker_registered(&*final(slf), Interest::WRITE, cx_waker(&*old(cx)))),
+//@ endslice
+//@ slice src/io.rs / impl AsyncWrite for Async<'_, F> / fn poll_flush :: body props=C17 name=Async::poll_flush
+//@ rw R21 * <<(*self).get_mut()>> => <<slf.get_mut()>>
+//@ rw R21 * <<self.register_waker(>> => <<match slf.register_waker(>>
+//@ rw R22 1/1 <<)?;>> => <<) { Ok(v) => v, Err(e) => return TaskPoll::Ready(Err(std::io::Error::from(e))) };>>
+//@ sig
+    /// S1 slice: whole body of `<Async as AsyncWrite>::poll_flush`; rules R21, R22 as for poll_read.
+    fn poll_flush_body(slf: &mut Async<'l, F>, cx: &mut Context<'_>) -> (r: TaskPoll<std::io::Result<()>>)
+//@ spec
+        ensures
+            // C17: Pending only after the operation said WouldBlock AND the task's waker has been stored with WRITE interest
+            // (register_waker then re-arms the one-shot registration): no path parks the task without arranging its wake-up
+            r is Pending ==> w_waker_registered(&*final(slf), Interest::WRITE, cx_waker(&*old(cx)))
+                && exists|x: std::io::Result<()>| #[trigger] w_flush_returned(x) && would_block(x),
+            // every other result of the operation (data, EOF, a real error) is handed to the task unchanged; the only other
+            // way to Ready is a failed re-arm, reported as an error
+            r matches TaskPoll::Ready(res) ==> (w_flush_returned(res) && !would_block(res))
+                || (res is Err && w_waker_registered(&*final(slf), Interest::WRITE, cx_waker(&*old(cx)))),
+//@ endslice
+}
+
 impl<'l, F: AsFd> Async<'l, F> {
+//@ slice src/io.rs / impl Async<'l, F> / fn readiness :: body props=C17 name=Async::readiness
+//@ rw R10 * <<self.dispatcher.borrow_mut()>> => <<disp_cell>>
+//@ sig
+    /// S1 slice: whole body of Async::readiness; R10: the borrow of the adapter's IoDispatcher cell becomes `disp_cell`.
+    fn readiness_body(&self, disp_cell: &mut IoDispatcher) -> (r: Readiness)
+//@ spec
+        ensures r == old(disp_cell).last_readiness, final(disp_cell).last_readiness == Readiness::EMPTY,
+                final(disp_cell).waker == old(disp_cell).waker, final(disp_cell).interest == old(disp_cell).interest,
+//@ endslice
+
+//@ slice src/io.rs / impl std::future::Future for Readable<'_, '_, F> / fn poll :: after <<let io = &mut self.as_mut().io;>> props=C17 name=Readable::poll
+//@ sig
+    /// S1 slice of `<Readable as Future>::poll`: everything after the projection `let io = &mut self.as_mut().io;` (Pin is
+    /// outside what Verus accepts); `io` and `cx` become parameters.
+    fn readable_poll_body(io: &mut Async<'l, F>, cx: &mut Context<'_>) -> (r: TaskPoll<()>)
+//@ spec
+        ensures
+            // C17: the future resolves only on readiness taken from the adapter at THIS poll that says readable or error ...
+            r is Ready ==> exists|rd: Readiness| #[trigger] w_readiness_taken(&*final(io), rd) && (rd.readable || rd.error),
+            // ... and otherwise the task's own waker has been stored with READ interest (and the registration re-armed: see
+            // register_waker) before Pending is returned -- no path returns Pending without arranging the wake-up
+            r is Pending ==> w_waker_registered(&*final(io), Interest::READ, cx_waker(&*old(cx))),
+//@ endslice
+
+//@ slice src/io.rs / impl std::future::Future for Writable<'_, '_, F> / fn poll :: after <<let io = &mut self.as_mut().io;>> props=C17 name=Writable::poll
+//@ sig
+    /// S1 slice of `<Writable as Future>::poll`, as for Readable.
+    fn writable_poll_body(io: &mut Async<'l, F>, cx: &mut Context<'_>) -> (r: TaskPoll<()>)
+//@ spec
+        ensures
+            r is Ready ==> exists|rd: Readiness| #[trigger] w_readiness_taken(&*final(io), rd) && (rd.writable || rd.error),
+            r is Pending ==> w_waker_registered(&*final(io), Interest::WRITE, cx_waker(&*old(cx))),
+//@ endslice
+
+//@ slice src/io.rs / impl Async<'l, F> / fn new :: stmts <<let was_nonblocking = set_nonblocking(>> .. <<let was_nonblocking = set_nonblocking(>> props=C17 name=Async::new::nonblocking_step
+//@ sig
+    /// S1 slice of Async::new: its first statement (the switch to non-blocking mode; D3 drops the windows argument).
+    fn new_nonblocking_step(fd: &F) -> (r: crate::Result<bool>)
+//@ spec
+        requires
+            // C17 (may-call side): creating the adapter may only install the current flag word with O_NONBLOCK switched ON
+            forall|d: int, f: crate::rustix::fs::OFlags| #[trigger] crate::rustix::fs::may_setfl(d, f) <==> (
+                d == crate::ext::fd_raw(fd) && f == with_nonblock(crate::rustix::fs::flags_of(d), true) && f != crate::rustix::fs::flags_of(d)),
+        ensures
+            // C17: what is remembered for Drop / into_inner is the mode the fd had BEFORE, and the fd is non-blocking now
+            r matches Ok(was) ==> {
+                &&& was == is_nonblock(crate::rustix::fs::flags_of(crate::ext::fd_raw(fd)))
+                &&& !was ==> crate::rustix::fs::w_setfl(crate::ext::fd_raw(fd), with_nonblock(crate::rustix::fs::flags_of(crate::ext::fd_raw(fd)), true))
+            },
+//@ entry
+        proof { broadcast use crate::ext::axiom_fd_raw_ref; }
+//@ tail
+        Ok(was_nonblocking)
+//@ endslice
+
+//@ slice src/io.rs / impl Async<'l, F> / fn new :: stmts <<let mut sources = inner.sources.borrow_mut();>> .. <<dispatcher.borrow_mut().token = Some(Token { inner: slot.token });>> props=C01,C06,C17 name=Async::new::slot_step
+//@ rw R10 * <<inner.sources.borrow_mut()>> => <<sources_cell>>
+//@ rw R10 * <<dispatcher.borrow_mut()>> => <<disp_cell>>
+//@ rw R15 1 <<Some(dispatcher.clone())>> => <<Some(unsize_io_dispatcher::<Data>(dispatcher.clone()))>>
+//@ sig
+    /// S1 slice of Async::new: the block that takes a slot of the loop's source list for the adapter. R10: the two RefCell
+    /// borrows become `sources_cell` / `disp_cell`; R15: the implicit unsizing coercion of the dispatcher Rc is an identity
+    /// stand-in.
+    fn new_slot_step<Data>(sources_cell: &mut SourceList<'l, Data>, dispatcher: Rc<RefCell<IoDispatcher>>, disp_cell: &mut IoDispatcher)
+//@ spec
+        requires old(sources_cell).wf(), old(sources_cell)@.len() < 0x1_0000_0000,
+        ensures
+            final(sources_cell).wf(),
+            // C01/C17: the adapter remembers exactly the token of the slot it was put in (events for that token reach this
+            // dispatcher, nothing else does); the slot was vacant or new; every other slot is untouched
+            final(disp_cell).token matches Some(t) && {
+                &&& t.inner.ssub() == 0
+                &&& final(sources_cell).lookup(t.inner) == Some(t.inner.sid())
+                &&& final(sources_cell)@[t.inner.sid()].disp() == Some(unsize_io_dispatcher_spec::<Data>(dispatcher))
+                &&& (t.inner.sid() < old(sources_cell)@.len() ==> old(sources_cell)@[t.inner.sid()].vacant())
+                &&& forall|i: int| 0 <= i < old(sources_cell)@.len() && i != t.inner.sid() ==> #[trigger] final(sources_cell)@[i] == old(sources_cell)@[i]
+            },
+            final(disp_cell).fd == old(disp_cell).fd, final(disp_cell).is_registered == old(disp_cell).is_registered,
+            final(disp_cell).interest == old(disp_cell).interest, final(disp_cell).last_readiness == old(disp_cell).last_readiness,
+//@ endslice
+
 //@ slice src/io.rs / impl Async<'l, F> / fn new :: stmts <<if let Err(err) = unsafe { inner.register(&dispatcher) }>> .. <<dispatcher.borrow_mut().is_registered = true;>> props=C15,C16,C17 name=Async::new::register_step
 //@ rw R10 * <<dispatcher.borrow_mut()>> => <<disp_cell>>
 //@ sig
